@@ -143,6 +143,17 @@ mod proofs {
         }
         pw_param_domain::<V>(".local-pw.", p, valid, calls)
     });
+    /// C04: every 89-byte blob (all salts, all cost parameters, all nonces) goes from parsing to the
+    /// entry of the KDF without a panic; the path ends where the KDF would start (its cost is the
+    /// attacker's to choose and outside C04's budget; what follows the KDF is covered by the PBKW
+    /// round-trip and tamper harnesses)
+    h!(c04_pw_unwrap_to_kdf, {
+        unsafe {
+            argon2::ABORT_AT_KDF = true;
+            argon2::EXPECT_VALID = true;
+        }
+        pw_unwrap_arbitrary::<V, 89>(".local-pw.")
+    });
     h!(pw_rng_fail_closed_at0, pw_rng_fail_closed::<V, 0>(".local-pw.", arm, draws));
     h!(pw_rng_fail_closed_at1, pw_rng_fail_closed::<V, 1>(".local-pw.", arm, draws));
     h!(pke_rng_fail_closed_, {
